@@ -177,6 +177,23 @@ def run_shard(sh, rec):
             dxcls = "small" if e < -1 else "large" if e > 0 else "mid"
         dx = float(real_t(dx))
         meta = {"dim": d, "dtype": sh["dtype"], "shape": shape, "dx": dx}
+        if k % 4 == 1:
+            # predecessor of the OTHER precision in the same process: same shape, numerically equal spacing (a dyadic dx has the
+            # same value and hash as float32 and float64 scalar): tables memoised across solver objects under a key that loses
+            # the precision would be handed to this shard's solver
+            other_t = np.float32 if real_t is np.float64 else np.float64
+            dx = float(2.0 ** -int(rng.integers(1, 6)))
+            meta["dx"] = dx
+            try:
+                if d == 2:
+                    sp_ = spne.FastDiagPoissonSolver2D(grid_size_y=shape[0], grid_size_x=shape[1], dx=other_t(dx), real_t=other_t)
+                else:
+                    sp_ = spne.FastDiagPoissonSolver3D(grid_size_z=shape[0], grid_size_y=shape[1], grid_size_x=shape[2], dx=other_t(dx), real_t=other_t)
+                fo = util.field(rng, shape, "noise", other_t)
+                sp_.solve(solution_field=np.zeros_like(fo), rhs_field=fo)
+                rec.count("other_precision_predecessors_same_shape_and_dx")
+            except Exception as e:
+                rec.note(f"other-precision predecessor failed: {type(e).__name__}: {e}")
         try:
             if d == 2:
                 s = spne.FastDiagPoissonSolver2D(grid_size_y=shape[0], grid_size_x=shape[1], dx=dx, real_t=real_t)
@@ -200,6 +217,13 @@ def run_shard(sh, rec):
 
         def solve(f, what="solve"):
             out = util.sentinel_like(rng, f.shape, real_t)
+            if d == 3 and rng.random() < 0.3:
+                # 3-D solver: the caller's output is the interior of a ghost-padded array (a non-contiguous view); the result
+                # must land in the caller's array, not in a temporary (the 2-D solver documents a C-contiguous `out=` and is
+                # not driven this way)
+                parent = util.sentinel_like(rng, tuple(n + 2 for n in f.shape), real_t).copy()
+                out = parent[tuple(slice(1, -1) for _ in f.shape)]
+                rec.count("solves_into_noncontiguous_output_view")
             f0 = f.copy()
             try:
                 if what == "solve":
